@@ -731,6 +731,16 @@ static void check_part_from_file(const Case& c, const Built& B, const std::strin
       GG::FileGraph cp(fg);
       check_fg<E>("partcopy", cp, B, M, a, b, true);
     }
+    if (idx % 2 == 0 || ranges.size() <= 24) { // a moved partially loaded graph is the same part (construction, assignment, stored in a vector)
+      GG::FileGraph mv(std::move(fg));
+      check_fg<E>("partmove", mv, B, M, a, b, true);
+      GG::FileGraph as;
+      as = std::move(mv);
+      check_fg<E>("partmove", as, B, M, a, b, true);
+      std::vector<GG::FileGraph> vec;
+      vec.push_back(std::move(as));
+      check_fg<E>("partmove", vec[0], B, M, a, b, true);
+    }
   }
 }
 
